@@ -345,9 +345,42 @@ def precision_rule(ctx, run):
                              file=str(prog.modules[fi.module].path), line=fi.node.lineno, witness="clamp(torch.tensor([0.], dtype=float64), min=0.1) = 0.10000000149011612"))
 
 
+def module_purity_rule(ctx, run):
+    """R6: the clamp / SVI / Whalley-Wilmott modules are functions of their inputs and their configuration: forward() leaves nothing on the
+    module (a memoised bound or parameter tensor keeps the dtype of the first call and is silently up-cast for the next one)."""
+    from ..purity import stores
+    from ..interp import Obj, Unsupported
+    from .. import world as W
+    prog, interp = ctx.prog, ctx.interp
+    M = "pfhedge.nn.modules."
+    cases = [
+        (M + "clamp.LeakyClamp", dict(clamped_slope=W.fl("slope"), inverted_output="mean"), [W.tensor("x"), W.fl("min"), W.fl("max")]),
+        (M + "clamp.Clamp", dict(inverted_output="mean"), [W.tensor("x"), W.fl("min"), W.fl("max")]),
+        (M + "svi.SVIVariance", dict(a=W.fl("a"), b=W.fl("b"), rho=W.fl("rho"), m=W.fl("m"), sigma=W.fl("sigma")), [W.tensor("x")]),
+    ]
+    run.require("C20.R6", 3)
+    for cls, attrs, args in cases:
+        fwd = prog.lookup_method(cls, "forward")
+        if fwd is None:
+            raise AnalysisError(f"anchor vanished: {cls}.forward")
+        o = Obj(cls, cls.rsplit(".", 1)[-1].lower())  # attributes come from the constructor's own assignments where the probe does not set them
+        o.attrs.update(attrs)
+        try:
+            res = interp.explore(fwd, list(args), {}, self_obj=o)
+        except Unsupported as ex:
+            raise AnalysisError(f"{cls}.forward: {ex}")
+        st = stores(res)
+        short = cls.rsplit(".", 1)[-1]
+        run.oblige("C20.R6", f"{short}.forward keeps no state on the module", not st, "; ".join(st))
+        if st:
+            run.fail(Finding("C20.R6", fwd.qualname, f"{short}.forward: " + "; ".join(st), "what one call leaves on the module is read by the next call (other dtype, other device): the output is no longer the documented function of the inputs",
+                             file=str(prog.modules[fwd.module].path), line=fwd.node.lineno))
+
+
 _check_before_precision = check
 
 
 def check(ctx, run):  # noqa: F811
     _check_before_precision(ctx, run)
     precision_rule(ctx, run)
+    module_purity_rule(ctx, run)
